@@ -6,12 +6,17 @@
 (* is complete (a final drain is implied).                                 *)
 (***************************************************************************)
 EXTENDS Discovery, Json
-CONSTANTS Agents, Comps, MaxLen, Exhaustive, WithDeliveries
+CONSTANTS Agents, Comps, MaxLen, Exhaustive, WithDeliveries, DrainOnly, Kinds, WithAgentOps
 VARIABLES s, hist
 
 Chans == {[k |-> "dl", a |-> a, c |-> d] : a \in Agents, d \in {"up", "down"}}   \* up: a -> directory, down: directory -> a
-Ops == {[k |-> k, a |-> a, c |-> c] : k \in OpKinds, a \in Agents, c \in Comps}
-       \cup (IF WithDeliveries THEN Chans \cup {[k |-> "drain", a |-> "", c |-> ""]} ELSE {})
+\* Kinds: the computation / replica operations drawn (a subset of OpKinds); WithAgentOps: also agent subscriptions and departures
+Ops == {[k |-> k, a |-> a, c |-> c] : k \in OpKinds \cap Kinds, a \in Agents, c \in Comps}
+       \cup (IF WithAgentOps THEN {[k |-> k, a |-> a, c |-> b] : k \in AgentOpKinds, a \in Agents, b \in Agents}
+                                   \cup {[k |-> "aunreg", a |-> a, c |-> ""] : a \in Agents}
+              ELSE {})
+       \* (DrainOnly: no single deliveries, only "everything in flight is delivered now")
+       \cup (IF WithDeliveries THEN (IF DrainOnly THEN {} ELSE Chans) \cup {[k |-> "drain", a |-> "", c |-> ""]} ELSE {})
 Init == s = InitS(Agents, Comps) /\ hist = <<>>
 Next == /\ Len(hist) < MaxLen
         /\ \E op \in Ops : /\ Enabled(s, op)
